@@ -66,13 +66,14 @@ def J(id, entry, props, enforce=None, replace=(), loops=False, unwind=None, unwi
 TYPES_PRELUDE = ['cstr.h', 'core_types.h']
 COSIM = False
 
-J('EncodeString.contract', 'h_enf_MetadataEncoder_EncodeString', ['C11'], enforce='MetadataEncoder_EncodeString', replace=['EncoderBuffer_Encode_u8', 'EncoderBuffer_EncodeBytes'])
+J('EncodeString.contract', 'h_enf_MetadataEncoder_EncodeString', ['C11'], enforce='MetadataEncoder_EncodeString', replace=['EncoderBuffer_Encode_u8', 'EncoderBuffer_EncodeBytes'],
+  native_api={'src': 'native/api_metadata_rt.cc', 'args': ['name256']})
 J('DecodeName.contract', 'h_enf_MetadataDecoder_DecodeName', ['C11', 'C02', 'C18'], enforce='MetadataDecoder_DecodeName', replace=['DecoderBuffer_Decode_u8', 'cstr_resize', 'DecoderBuffer_DecodeBytes'])
 J('name.rt', 'h_meta_name', ['C11'], replace=['MetadataEncoder_EncodeString', 'MetadataDecoder_DecodeName'])
 J('DecodeEntry.contract', 'h_enf_MetadataDecoder_DecodeEntry', ['C11', 'C02', 'C18'], enforce='MetadataDecoder_DecodeEntry',
   replace=['MetadataDecoder_DecodeName', 'DecodeVarint_u32', 'DecoderBuffer_remaining_size', 'cbytes_construct', 'cstr_construct', 'DecoderBuffer_DecodeBytes', 'Metadata_AddEntryBinary'])
-J('propagate', 'h_meta_propagate', ['C11'], unwind=8, unwind_reason='bounded: names <= 2 bytes, varint recursion <= 5, vector-model loops <= 2 bytes')
-J('entry.rt', 'h_meta_entry', ['C11'], unwind=66, unwind_reason='bounded: name <= 2 bytes, value <= 4 bytes, 64-byte vector model; varint recursion <= 5', timeout=1500, cost=8)
+J('propagate', 'h_meta_propagate', ['C11'], native_api={'src': 'native/api_metadata_rt.cc', 'args': ['longname']}, unwind=8, unwind_reason='bounded: names <= 2 bytes, varint recursion <= 5, vector-model loops <= 2 bytes')
+J('entry.rt', 'h_meta_entry', ['C11'], native_api={'src': 'native/api_metadata_rt.cc', 'args': ['empty']}, unwind=66, unwind_reason='bounded: name <= 2 bytes, value <= 4 bytes, 64-byte vector model; varint recursion <= 5', timeout=1500, cost=8)
 ASSUMPTIONS = ['std::string / std::vector<uint8_t> / Metadata are modelled by struct cstr / struct cbytes / ghost struct MetadataGhost with contract-only constructors (cstr_construct, cbytes_construct carries the C18 bound as its precondition)',
                'the loop bodies of the range-for loops over std::map in EncodeMetadata / EncodeGeometryMetadata are sliced as statement regions (slicer rule region); map iteration order and the recursion itself are not modelled',
                'meta.entry and meta.propagate are bounded stand-ins (name <= 2, value <= 4 bytes); the unbounded facts are the contracts of EncodeString/DecodeName/DecodeEntry and the varint round trip of unit core']
